@@ -355,7 +355,6 @@ structure SecOk (I : DState → Prop) (o : Options) (ftp out : Bytes) : Prop whe
   defW : ∀ w : DeferredWrite, w.dest = out → Stable I (fun s => { s with dWrites := s.dWrites ++ [w] })
   defR : Stable I (fun s => { s with dRemovals := s.dRemovals ++ [ftp] })
 
-set_option maxHeartbeats 1000000 in
 theorem inv_processSection {I : DState → Prop} {I' : Bytes → Bytes → DState → Prop} {o : Options} (format : Format)
     (hF : Framed I) (hF' : ∀ a b, Framed (I' a b)) (hct : ∀ a b, Inv (I' a b) createTemp)
     (hsw : ∀ a b s, I s → I' a b { s with sections := s.sections ++ [(a, b)] })
